@@ -31,9 +31,14 @@ REPLAYS = os.path.join(VERIF, "replays")
 class Inp:
     name: str
     shape: tuple
-    kind: str = "real"        # real | pos | bool | unit (in (0,1))
+    kind: str = "real"        # real | pos | bool | unit (in (0,1)) | int
     lo: float = -1.5
     hi: float = 1.5
+    dtype: object = None      # dtype of the traced argument (default float64 / bool / int64 by kind)
+
+    def example(self):
+        dt = self.dtype or {"bool": np.bool_, "int": np.int64}.get(self.kind, np.float64)
+        return np.zeros(tuple(self.shape), dtype=dt)
 
 
 def _is_leaf(x):
@@ -66,6 +71,8 @@ class Valuation:
             shape = tuple(inp.shape)
             if inp.kind == "bool":
                 arr = rng.integers(0, 2, size=shape).astype(bool)
+            elif inp.kind == "int":
+                arr = rng.integers(0, 4, size=shape).astype(inp.dtype or np.int64)
             elif inp.kind == "pos":
                 arr = rng.uniform(0.5, 2.0, size=shape)
             elif inp.kind == "unit":
@@ -172,7 +179,7 @@ class EqObligation(Obligation):
                     pre.append(lambda low, e=e: low.poly(e) > 0)
         # 1. symbolic value of the real code
         try:
-            impl, it = JI.run_symbolic(fn, tuple(syms))
+            impl, it = JI.run_symbolic(fn, tuple(syms), example_args=tuple(i.example() for i in inputs))
         except JI.Unsupported:
             raise
         except Exception as e:
@@ -268,7 +275,7 @@ class EqObligation(Obligation):
 
     # -- native execution helpers
     def _native(self, b, val):
-        arrays = [jnp.asarray(a) for a in val.arrays]
+        arrays = [jnp.asarray(a, dtype=i.example().dtype) for a, i in zip(val.arrays, b["inputs"])]
         with concrete(val.seed):
             out = b["fn"](*arrays)
         return [np.asarray(x, dtype=float) for x in jax.tree_util.tree_leaves(out)]
